@@ -209,6 +209,199 @@ def sum_scenario(which):
   return scenario
 
 
+QE = "qkeras/qtools/qenergy/qenergy.py::"
+
+
+def energy_scenario(fp_acc=False):
+  """energy_estimate on a six-layer model (QDense, QActivation, Add, AveragePooling2D, QBatchNormalization, one layer
+  that is not in the data-type map).  memory_read_energy / memory_write_energy / parameter_read_energy are replaced by
+  their contracts (a non-negative value per call; their own bodies are the mem_* cases); the operator stubs carry symbolic
+  gate_factor / gate_bits / operation counts.  Claims: every entry is the documented function of the reported types,
+  counts and sizes (up to the two-decimal rounding), entries are non-negative, unlisted layers contribute nothing,
+  total_cost is the integer part of the sum of all entries."""
+  def scenario(ip):
+    s = Scen()
+    f = ip.find(QE + "energy_estimate")
+    IQ = ip.find("qkeras/qtools/quantized_operators/quantizer_impl.py::IQuantizer")
+    calls = {"rd": [], "wr": [], "par": []}
+
+    def contract(kind):
+      def ov(ip_, fv, a, k):
+        v = z3.Real("%s_%d" % (kind, len(calls[kind])))
+        s.vars[str(v)] = v
+        ip_.assume(v >= 0)
+        calls[kind].append((list(a), dict(k), v))
+        return SNum(v, "float")
+      return ov
+    ip.overrides["qkeras.qtools.qenergy.qenergy::memory_read_energy"] = contract("rd")
+    ip.overrides["qkeras.qtools.qenergy.qenergy::memory_write_energy"] = contract("wr")
+    ip.overrides["qkeras.qtools.qenergy.qenergy::parameter_read_energy"] = contract("par")
+
+    def iq(bits, fp=False):
+      q = ip.call(IQ, [], {})
+      ip.setattr(q, "bits", bits)
+      ip.setattr(q, "is_floating_point", fp)
+      return q
+
+    def sym_int(n, lo=1, hi=64):
+      v = z3.Int(n)
+      s.vars[n] = v
+      ip.assume(z3.And(v >= lo, v <= hi))
+      return v
+
+    def sym_real(n):
+      v = z3.Real(n)
+      s.vars[n] = v
+      ip.assume(z3.And(v >= 0, v <= 4))
+      return v
+
+    def op_stub(pfx, mode, fp=False):
+      gf, gb = sym_real(pfx + "_gate_factor"), sym_int(pfx + "_gate_bits")
+      ob = 32 if fp else SNum(sym_int(pfx + "_out_bits"))
+      o = Obj(ExtClass("Operator"), {"gate_factor": SNum(gf, "float"), "gate_bits": SNum(gb), "output": iq(ob, fp),
+                                    "implemented_as": Builtin("implemented_as", lambda ip_: mode)})
+      return o, gf, gb
+
+    def pos(e):
+      return z3.If(e >= 0, e, z3.RealVal(0))
+
+    def cost(op, mode, b):
+      b = z3.ToReal(b) if b.sort() == z3.IntSort() else b
+      if op == "fp32":
+        return zreal(0.9) if mode == "add" else zreal(3.7)
+      if mode == "mul":
+        return pos(zreal(0.002994791667) * b * b + zreal(0.001041666667) * b)
+      return pos(zreal(0.003125) * b)
+    L = lambda c, n, **a: Obj(ExtClass(c), dict(a, name=n), label=n)
+    shp = (None, 4, 4, 3)
+    dense, act, add = L("QDense", "d0", input_shape=(None, 8)), L("QActivation", "a0", input_shape=(None, 8)), \
+        L("Add", "add0", input_shape=[shp, shp, shp])
+    pool, bn, free = L("AveragePooling2D", "p0", input_shape=shp), L("QBatchNormalization", "bn0", input_shape=shp), \
+        L("Flatten", "fl0", input_shape=shp)
+    n_d, n_a, n_add, n_p, n_bn = [sym_int("count_" + n, 0, 4096) for n in ("d0", "a0", "add0", "p0", "bn0")]
+    mult, m_gf, m_gb = op_stub("mult", "mul")
+    acc_bits = sym_int("acc_bits")
+    acc = Obj(ExtClass("Accumulator"), {"output": iq(32 if fp_acc else SNum(acc_bits), fp_acc)})
+    merge, g_gf, g_gb = op_stub("merge", "add")
+    pacc_bits = sym_int("pool_acc_bits")
+    pacc = Obj(ExtClass("Accumulator"), {"output": iq(SNum(pacc_bits))})
+    div, d_gf, d_gb = op_stub("div", "shifter")
+    bmul, b_gf, b_gb = op_stub("bnmul", "mul")
+    inq = lambda: iq(8)
+    item = lambda cnt, **k: dict({"input_quantizer_list": [inq()], "operation_count": SNum(cnt), "output_shapes": shp,
+                                  "output_quantizer": iq(8)}, **k)
+    m = {dense: item(n_d, multiplier=mult, accumulator=acc),
+         act: item(n_a),
+         add: dict(item(n_add, multiplier=merge), input_quantizer_list=[inq(), inq(), inq()]),
+         pool: item(n_p, accumulator=pacc),
+         bn: item(n_bn, internal_divide_quantizer=div, internal_multiplier=bmul)}
+    model = Obj(ExtClass("Model"), {"layers": [dense, act, free, add, pool, bn]})
+    layer_map = {"output_layers": [bn], "input_layers": [dense], "layer_data_type_map": m}
+    r = run_call(ip, f, [model, layer_map, "dram", "sram", 0, True])
+    s.claim("no_raise", r[0] == "return")
+    if r[0] != "return":
+      s.info["raised"] = str(r[1])
+      return s
+    res = r[1]
+    s.claim("layers_reported", sorted(k for k in res if k != "total_cost") == ["a0", "add0", "bn0", "d0", "p0"])
+    # one read per input tensor, one write and one parameter read per reported layer, with the reported types
+    n_in = {"d0": 1, "a0": 1, "add0": 3, "p0": 1, "bn0": 1}
+    order = ["d0", "a0", "add0", "p0", "bn0"]
+    s.claim("memory_calls", len(calls["rd"]) == 7 and len(calls["wr"]) == 5 and len(calls["par"]) == 5 and
+            all(c[0][0] is (i == 0) for i, c in enumerate(calls["rd"])) and            # is_input_layer only for d0
+            all(c[0][2] == "sram" for c in calls["rd"]) and all(c[0][2] == "sram" for c in calls["wr"]) and
+            all(c[0][0] is (i == 4) for i, c in enumerate(calls["wr"])) and            # is_output_layer only for bn0
+            all(c[0][2] == "dram" for c in calls["par"]))
+    if not (len(calls["rd"]) == 7 and len(calls["wr"]) == 5 and len(calls["par"]) == 5):
+      return s
+    rd = iter(calls["rd"])
+    ins = {n: sum((next(rd)[2] for _ in range(n_in[n])), z3.RealVal(0)) for n in order}
+    outs = {n: calls["wr"][i][2] for i, n in enumerate(order)}
+    pars = {n: calls["par"][i][2] for i, n in enumerate(order)}
+    R_ = z3.ToReal
+    acc_cost = cost("fp32" if fp_acc else "fpm", "add", acc_bits)
+    ops = {"d0": R_(n_d) * (m_gf * cost("fpm", "mul", m_gb) + acc_cost),
+           "a0": z3.RealVal(0),
+           "add0": 2 * R_(n_add) * g_gf * cost("fpm", "add", g_gb),
+           "p0": R_(n_p) * cost("fpm", "add", pacc_bits),
+           "bn0": (d_gf * cost("fpm", "shifter", d_gb) + b_gf * cost("fpm", "mul", b_gb)) * R_(n_bn)}
+    eps = z3.RealVal("5/1000")
+    near = lambda a, b: z3.And(a - b <= eps, b - a <= eps)
+    goals, nonneg = [], []
+    for n in order:
+      e = res[n]["energy"]
+      for key, spec in (("inputs", ins[n]), ("outputs", outs[n]), ("parameters", pars[n]), ("op_cost", ops[n])):
+        v = Q.num_value(e[key])
+        goals.append(near(v, spec))
+        nonneg.append(v >= 0)
+    s.claim("entries_documented", z3.And(*goals))
+    s.claim("entries_nonneg", z3.And(*nonneg))
+    tot = sum((ins[n] + outs[n] + pars[n] + ops[n] for n in order), z3.RealVal(0))
+    tc = Q.num_value(res["total_cost"])
+    s.claim("total_is_sum", z3.And(tc <= tot, tot < tc + 1, tc >= 0))
+    s.claim("class_names", all(res[n]["class_name"] == c for n, c in (("d0", "QDense"), ("a0", "QActivation"), ("add0", "Add"),
+                                                                     ("p0", "AveragePooling2D"), ("bn0", "QBatchNormalization"))))
+    return s
+  return scenario
+
+
+def param_scenario(kind):
+  """parameter_read_energy: one memory read per stored tensor with the tensor's shape and its quantizer's width, under
+  the weight placement, never treated as an input tensor; batch normalisation reads only the statistics that have a
+  quantizer.  kind: 'dense_bias' | 'dense_nobias' | 'bn_all' | 'bn_partial' | 'other'."""
+  def scenario(ip):
+    s = Scen()
+    f = ip.find(QE + "parameter_read_energy")
+    calls = []
+
+    def ov(ip_, fv, a, k):
+      v = z3.Real("rd_%d" % len(calls))
+      s.vars[str(v)] = v
+      ip_.assume(v >= 0)
+      calls.append((list(a), dict(k), v))
+      return SNum(v, "float")
+    ip.overrides["qkeras.qtools.qenergy.qenergy::memory_read_energy"] = ov
+    wb, bb = z3.Int("weight_bits"), z3.Int("bias_bits")
+    s.vars.update({"weight_bits": wb, "bias_bits": bb})
+    ip.assume(z3.And(wb >= 1, wb <= 32, bb >= 1, bb <= 32))
+    Qb = lambda b: Obj(ExtClass("Quantizer"), {"bits": SNum(b)})
+    msz = z3.Int("min_sram")
+    s.vars["min_sram"] = msz
+    ip.assume(msz >= 0)
+    if kind.startswith("dense"):
+      layer = Obj(ExtClass("QDense"), {"name": "d0"})
+      item = {"weight_quantizer": Qb(wb), "w_shapes": (8, 4), "bias_quantizer": Qb(bb) if kind == "dense_bias" else None,
+              "b_shapes": (4,)}
+      want = [((8, 4), wb)] + ([((4,), bb)] if kind == "dense_bias" else [])
+    elif kind.startswith("bn"):
+      gamma = [Obj(ExtClass("ndarray"), {"__len__": Builtin("__len__", lambda ip_: 6)})]
+      layer = Obj(ExtClass("QBatchNormalization"), {"name": "bn0", "get_weights": Builtin("get_weights", lambda ip_: [[0] * 6] * 4)})
+      qs = [Qb(wb), Qb(bb), Qb(wb), Qb(bb)] if kind == "bn_all" else [Qb(wb), None, None, Qb(bb)]
+      item = dict(zip(["gamma_quantizer", "beta_quantizer", "mean_quantizer", "variance_quantizer"], qs))
+      want = [(6, q.attrs["bits"].e) for q in qs if q is not None]
+    else:
+      layer = Obj(ExtClass("Flatten"), {"name": "fl0"})
+      item = {}
+      want = []
+    r = run_call(ip, f, [layer, item, "dram", SNum(msz), True])
+    s.claim("no_raise", r[0] == "return")
+    if r[0] != "return":
+      s.info["raised"] = str(r[1])
+      return s
+    ok = len(calls) == len(want)
+    goals = []
+    if ok:
+      for (a, k, v), (shape, bits) in zip(calls, want):
+        ok = ok and a[0] is False and (tuple(a[1]) if isinstance(a[1], (tuple, list)) else a[1]) == shape and a[2] == "dram" \
+            and a[4] is True and k.get("is_tensor") is False
+        goals.append(Q.num_value(a[5]) == z3.ToReal(bits))
+        goals.append(Q.num_value(a[3]) == z3.ToReal(msz))
+    s.claim("one_read_per_stored_tensor", z3.And(*goals) if (ok and goals) else ok)
+    s.claim("sum_of_reads", Q.num_value(r[1]) == sum((c[2] for c in calls), z3.RealVal(0)))
+    return s
+  return scenario
+
+
 def bounds(vars_):
   return [v <= 6 for k, v in vars_.items()]
 
@@ -230,6 +423,15 @@ def cases(tier):
         for io in (True, False):
           out.append(Case(PROP, "qkeras/qtools/qenergy/qenergy.py::" + fn, "%s_rdwr%d_io%d" % (mode, rd_wr, io),
                           mem_scenario(fn, mode, rd_wr, io), bounds=bounds, replay_kind=None, assumptions=ASSUME))
+  for fp in (False, True):
+    out.append(Case(PROP, QE + "energy_estimate", "six_layers" + ("_fp32acc" if fp else ""), energy_scenario(fp),
+                    replay_kind=None, assumptions=ASSUME + ["memory_read_energy / memory_write_energy / "
+                                                            "parameter_read_energy replaced by their contracts (non-negative "
+                                                            "value per call) inside energy_estimate",
+                                                            "float('{0:.2f}'.format(x)) is x rounded to two decimals"]))
+  for k in ("dense_bias", "dense_nobias", "bn_all", "bn_partial", "other"):
+    out.append(Case(PROP, QE + "parameter_read_energy", k, param_scenario(k), replay_kind=None,
+                    assumptions=ASSUME + ["memory_read_energy replaced by its contract inside parameter_read_energy"]))
   for w in ("sum", "profile"):
     out.append(Case(PROP, "qkeras/qtools/run_qtools.py::QTools.extract_energy_" + w, "three_layers", sum_scenario(w),
                     bounds=bounds, replay_kind=None, assumptions=ASSUME))
